@@ -294,16 +294,20 @@ def djs_reject(data, model, outmask=None, inmask=None, sigma=None,
                 raise ValueError('maxrej and groupsize must have the same number of elements.')
         else:
             groupsize = len(data)
+    #
+    # Compute the residuals in floating point: the difference of unsigned
+    # integer arrays would wrap around.
+    #
+    diff = (data if np.issubdtype(data.dtype, np.inexact) else data.astype(np.float64)) - model
     if sigma is None and invvar is None:
         if inmask is not None:
             igood = (inmask & outmask).nonzero()[0]
         else:
             igood = outmask.nonzero()[0]
         if len(igood > 1):
-            sigma = np.std(data[igood] - model[igood])
+            sigma = np.std(diff[igood])
         else:
             sigma = 0
-    diff = data - model
     #
     # The working array is badness, which is set to zero for good points
     # (or points already rejected), and positive values for bad points.
@@ -311,16 +315,16 @@ def djs_reject(data, model, outmask=None, inmask=None, sigma=None,
     # to the number of sigma above or below the fit, or to the number
     # of multiples of maxdev away from the fit.
     #
-    badness = np.zeros(outmask.shape, dtype=data.dtype)
+    badness = np.zeros(outmask.shape, dtype=diff.dtype)
     #
     # Decide how bad a point is according to lower.
     #
     if lower is not None:
         if sigma is not None:
-            qbad = diff < (-lower * sigma)
+            qbad = diff < -(np.float64(lower) * sigma)
             badness += ((-diff/(sigma + (sigma == 0))) > 0) * qbad
         else:
-            qbad = (diff * np.sqrt(invvar)) < -lower
+            qbad = (diff * np.sqrt(invvar)) < -np.float64(lower)
             badness += ((-diff * np.sqrt(invvar)) > 0) * qbad
     #
     # Decide how bad a point is according to upper.
